@@ -59,7 +59,7 @@ func init() {
 		Technique: "abstract interpretation + term agreement: facts at the refund call site of NewEpoch, argument terms of the refund, lock record literal, ordering of the lock record write before the transfer, subscription on fresh deploy",
 		Explanation: "D1 Lock writes {Balance:0, Until:Param(until), Parent:Param(from)} at the key of the lock account before the transfer is attempted and the credit leg preserves Until/Parent. " +
 			"D2 in NewEpoch the refund transfer is called only under Until ≠ 0 ∧ epochNum ≥ Until, with from = the scanned account key, to = Parent and amount = Balance of the record loaded from that same key; no store to an account record lies between that load and the re-read by the debit leg within one iteration, so the debit leg takes the Balance == amount branch and deletes the record (no second unlock); a partial burn keeps Until/Parent (C01.D2). " +
-			"D3 the fresh-deploy path of balance._deploy subscribes to the Netmap tick.",
+			"D3 the fresh-deploy path of balance._deploy subscribes to the Netmap tick. D4 an iteration of the tick goes round the refund only with len(key) ≠ 20 ∨ Until = 0 ∨ epochNum < Until and the scan ends only on exhaustion; D5 a successful transfer of the whole loaded balance deletes the record for every amount, 0 included.",
 		NotCovered:  "that all locks expiring at one tick are released by that tick depends on the VM iterator semantics while the scanned family is mutated (trusted: Find takes a snapshot at call time); timing over tick schedules.",
 		Assumptions: []string{"storage.Find enumerates a snapshot taken when it is called (neo-go MemCachedStore)"},
 		Run:         runC09,
